@@ -116,6 +116,20 @@ def run(ctx, proofs_ok):
             out += [sanitize(op), "feedp"]
         if vlib.correspond_stream(ctx, hft, out, f"p{i}", "a watcher with narrow patterns receives exactly the matching records of the * watcher, in order"):
             return
+    # commands whose records name two different keys, with a narrow watcher that matches only ONE of the two keys, registered
+    # before or after the `*` watcher: each watcher gets exactly its own records, and the `*` watcher's are the model's emission
+    for order in (0, 1):
+        for which in ("second", "first"):
+            pat = {"second": "*2", "first": "*1"}[which]
+            regs = ["watch 2a 2a2f2a", "watchp " + pat.encode().hex()]
+            out = ["open a mem"] + (regs if order == 0 else regs[::-1])
+            hxs = lambda x: x.encode().hex()
+            for cmd in ("SAdd t1 a b c", "SMove t1 t2 a", "SMove t2 t1 a", "RPush l1 x y z", "RPopLPush l1 l2", "LPopRPush l2 l1", "RPopLPush l1 l2", "Set s1 v 0", "Rename s1 s2",
+                        "RenameNX s2 s1", "MSet s1 p s2 q", "Del s1 s2", "SAdd t2 q", "SUnionStore t2 t1 t2", "SDiffStore t1 t2 t1", "Del t2 t1 l1 l2"):
+                t = cmd.split(" ")
+                out += ["api " + t[0] + " " + " ".join(x if x == "0" else hxs(x) for x in t[1:]), "feedp"]
+            if vlib.correspond_stream(ctx, hft, out, f"two{order}{which[0]}", "records of one command naming two keys, a narrow watcher matching one of them, both registration orders", shrink=False):
+                return
     # the implementation's own verdict (independent of the model)
     for i in range(6 if q else 40):
         f = f"{ctx.work}/p{i}.g"
